@@ -57,6 +57,9 @@ const CTS_K: [f64; 4] = [0.0, -2.0 / 30.0, 1.0 / 30.0, 1001.0 / 24000.0];
 /// index 4 = an offset that does not fit the signed 32-bit field (the write must be rejected
 /// and leave the accepted samples' timing untouched)
 const CTS_OVERFLOW: usize = 4;
+/// the extremes of the signed 32-bit field: -2^31 and 2^31-1 ticks (both must be stored exactly)
+const CTS_NEG_LIMIT: usize = 5;
+const CTS_POS_LIMIT: usize = 6;
 
 fn video_ops(it: &VideoItem, cts: &[usize]) -> Option<Vec<Op>> {
     let st = video_steps();
@@ -67,7 +70,12 @@ fn video_ops(it: &VideoItem, cts: &[usize]) -> Option<Vec<Op>> {
         if i > 0 {
             t += st[it.steps[i - 1]];
         }
-        let pts = if cts[i] == CTS_OVERFLOW { t + (2147483648.0 + 4500.0) / 90000.0 } else { t + CTS_K[cts[i]] };
+        let pts = match cts[i] {
+            CTS_OVERFLOW => t + (2147483648.0 + 4500.0) / 90000.0,
+            CTS_NEG_LIMIT => (oracle::refmodel::tick(t) as f64 - 2147483648.0) / 90000.0,
+            CTS_POS_LIMIT => (oracle::refmodel::tick(t) as f64 + 2147483647.0) / 90000.0,
+            k => t + CTS_K[k],
+        };
         if !tick_is_robust(t) || (pts >= 0.0 && !tick_is_robust(pts)) {
             return None;
         }
@@ -113,6 +121,11 @@ pub fn check_c03(ctx: &Ctx) -> i32 {
                 for p in 0..n {
                     let mut q = vec![base; n];
                     q[p] = CTS_OVERFLOW;
+                    v.push(q.clone());
+                    // ... and the two extremes that still fit, at the same position
+                    q[p] = CTS_NEG_LIMIT;
+                    v.push(q.clone());
+                    q[p] = CTS_POS_LIMIT;
                     v.push(q);
                 }
             }
@@ -344,7 +357,7 @@ pub fn check_c03(ctx: &Ctx) -> i32 {
         Meta {
             level: "model_checking",
             rule: format!(
-                "every video DTS sequence of <= {vmax} frames over the step alphabet {{1/30, 1001/30000, 1001/24000, 1 tick, 0.4 tick, 7.3 s, 2^31 ticks, 2^31-1800 ticks, 2^31+1800 ticks}} from starts {{0, 0.5, 36000 s}}, via write_video and via write_video_with_dts with every composition-offset vector over {{0, -2/30 s, +1/30 s, +1001/24000 s (off the tick grid)}} plus an overflowing offset at each single position, on H.264 and VP9 ({n_video_items} sequence items); every audio PTS sequence of <= {amax} frames over steps {{0, 1024/48000, 1024/44100, 0.02}} x start lead {{0, 0.01}} x {{AAC, Opus}} ({n_audio_items} items), each also with a refused audio call (unusable payload) between any two accepted frames; rejected writes are kept in the history and the oracle is applied to the accepted subsequence; far from zero: four-frame histories from ticks 2^40+1, 2^52+1, 2^52+2, 2^53-41 with delta patterns (3,4,5), (3000,3001,2999), (1,1,1); tick-level jitter: every step sequence of 2..{jmax} steps over {{1, 2, 3, 5}} ticks x scale {{1, 600}} for video and for audio ({n_jitter} items); automatic clocks: encode_video x encode_audio histories over 6 sample rates x frame lengths {{1024, 960, 100, 1}} x frame durations {{33, 40, 1 ms}} x {{3, 12, 60}} frames x {{AAC, Opus}} ({n_conv_items} items); plus two long single traces ({long_n} video frames at 29.97/23.976 fps with {} AAC frames at 44.1 kHz) for the no-drift clause. Oracle: stts deltas = differences of exactly rounded absolute timestamps, last-sample rule, ctts presence/values, mdhd duration = sum, no drift at any sample. Distinct by (result vector, output bytes).",
+                "every video DTS sequence of <= {vmax} frames over the step alphabet {{1/30, 1001/30000, 1001/24000, 1 tick, 0.4 tick, 7.3 s, 2^31 ticks, 2^31-1800 ticks, 2^31+1800 ticks}} from starts {{0, 0.5, 36000 s}}, via write_video and via write_video_with_dts with every composition-offset vector over {{0, -2/30 s, +1/30 s, +1001/24000 s (off the tick grid)}} plus an overflowing offset and the two extremes of the 32-bit field (-2^31, 2^31-1 ticks) at each single position, on H.264 and VP9 ({n_video_items} sequence items); every audio PTS sequence of <= {amax} frames over steps {{0, 1024/48000, 1024/44100, 0.02}} x start lead {{0, 0.01}} x {{AAC, Opus}} ({n_audio_items} items), each also with a refused audio call (unusable payload) between any two accepted frames; rejected writes are kept in the history and the oracle is applied to the accepted subsequence; far from zero: four-frame histories from ticks 2^40+1, 2^52+1, 2^52+2, 2^53-41 with delta patterns (3,4,5), (3000,3001,2999), (1,1,1); tick-level jitter: every step sequence of 2..{jmax} steps over {{1, 2, 3, 5}} ticks x scale {{1, 600}} for video and for audio ({n_jitter} items); automatic clocks: encode_video x encode_audio histories over 6 sample rates x frame lengths {{1024, 960, 100, 1}} x frame durations {{33, 40, 1 ms}} x {{3, 12, 60}} frames x {{AAC, Opus}} ({n_conv_items} items); plus two long single traces ({long_n} video frames at 29.97/23.976 fps with {} AAC frames at 44.1 kHz) for the no-drift clause. Oracle: stts deltas = differences of exactly rounded absolute timestamps, last-sample rule, ctts presence/values, mdhd duration = sum, no drift at any sample. Distinct by (result vector, output bytes).",
                 2 * long_n
             ),
             bound: format!("video <= {vmax} frames, audio <= {amax} frames; long traces are single deterministic executions"),
